@@ -39,3 +39,10 @@ pub fn logaddexp(a: f64, b: f64) -> f64 {
 }
 
 pub use crate::stepsize::{VerifAdam as Adam, VerifDualAverage as DualAverage, VerifDualAverageOptions as DualAverageOptions};
+
+pub use crate::dynamics::VerifPoint;
+pub use crate::transform::{
+    VerifDiagAdaptStrategy as DiagAdaptStrategy, VerifDiagMassMatrix as DiagMassMatrix,
+    VerifLowRankMassMatrix as LowRankMassMatrix, VerifMassMatrixAdaptStrategy as MassMatrixAdaptStrategy,
+};
+pub use crate::stepsize::{VerifAcceptanceRateCollector as AcceptanceRateCollector, VerifStrategy as StepSizeStrategy};
